@@ -32,3 +32,29 @@ Print Assumptions C19_grid_within_window.
    dropping makes distinct series collide (known findings F22a-c, F20) - and
    sortedness of label sets, which depend on the label functions of each
    operator. Those are decided by the result validator of the check. *)
+
+(* histogram_quantile: the output series of the operator have pairwise distinct label sets - a bucket
+   series joins the output series named by its labels without le and metric name if that one exists
+   (two metrics whose buckets agree on all other labels feed one histogram; the operators that drop
+   the metric name series by series do not merge, which is the recorded finding F22) *)
+From Verif Require Bucket BucketProofs.
+Theorem C19_histogram_output_series_distinct : forall (V : Type) le (ins : list (Base.labels * option (option V))),
+  NoDup (fst (Bucket.load V le ins [])).
+Proof. exact BucketProofs.hist_output_series_distinct. Qed.
+Print Assumptions C19_histogram_output_series_distinct.
+
+(* aggregations: the groups - the output series of count / sum / min / max / avg / group / stddev /
+   stdvar / quantile nodes - are pairwise distinct label sets, whatever the operand's series *)
+From Verif Require AggEnd Trees SeriesDistinct.
+Theorem C19_aggregation_groups_distinct : forall without grouping (slabels : list Base.labels),
+  NoDup (AggEnd.groups without grouping slabels).
+Proof. exact SeriesDistinct.groups_distinct. Qed.
+Print Assumptions C19_aggregation_groups_distinct.
+
+Theorem C19_aggregation_nodes_have_distinct_series : forall t,
+  match t with
+  | Trees.JCount _ _ _ _ | Trees.JAgg _ _ _ _ _ => NoDup (Trees.jseries t)
+  | _ => True
+  end.
+Proof. exact SeriesDistinct.aggregation_series_distinct. Qed.
+Print Assumptions C19_aggregation_nodes_have_distinct_series.
